@@ -788,8 +788,14 @@ def identity_history(c, prop):
         return {"defaultAccess": "deny", "mode": "enforce", "id": "idoc%d" % n, "rules": {
             "privileges": [{"name": "p", "path": "/metadata"}], "roles": [{"name": "r", "privileges": ["p"]}],
             "identities": [dict({"name": "i"}, **ident)], "roleAssignments": [{"role": "r", "identities": ["i"]}]}}
+    # a path the rules may state that is a symbolic link to the shell on this guest: "equals the caller's" is about the
+    # attribute strings (the caller's path is the one the agent resolved), not about what the stated path points to today
+    link = os.path.join(util.RUNDIR, "idhist-link-to-sh")
+    os.makedirs(util.RUNDIR, exist_ok=True)
+    if not os.path.lexists(link):
+        os.symlink(sh, link)
     idents = [{"exePath": sh}, {"exePath": sl}, {"processName": os.path.basename(sh)}, {"processName": os.path.basename(sl)},
-              {"userName": "root", "exePath": sh}]
+              {"userName": "root", "exePath": sh}, {"exePath": link}]
     if c.tier == "thorough":
         idents = idents * 3
     steps, meta = [], {}
